@@ -387,88 +387,85 @@ theorem hexLoop_le (buf : Buf) (s : Sc) (hv : Bool) : (hexLoop buf s hv).2.1.res
   | case1 buf s hv h ih => have := next_rest_le s; omega
   | case2 buf s hv h => exact Nat.le_refl _
 
-/-- `scanNumber` from `sc.scanDecimal(ch, buf)` on: integer part, optional fraction, optional exponent.
-    After the exponent marker (and sign) the Go code calls `scanDecimal(sc.Next(), buf)`: whatever byte follows
-    (or EOF = 0xFF) is appended to the numeral. -/
-def scanNumberTail (ch : Int) (buf : Buf) (s : Sc) : Buf × Sc :=
-  let d := scanDecimal ch buf s
-  let f := if peek d.2 = 46 then scanDecimal (next d.2).1 d.1 (next d.2).2 else d
-  let c := peek f.2
-  if c = 101 ∨ c = 69 then
-    let e := next f.2
-    let b1 := writeChar f.1 e.1
-    let c2 := peek e.2
-    let g : Buf × Sc := if c2 = 45 ∨ c2 = 43 then (writeChar b1 (next e.2).1, (next e.2).2) else (b1, e.2)
-    scanDecimal (next g.2).1 g.1 (next g.2).2
-  else f
+/-- `scanNumber` from `sc.scanDecimal(ch, buf)` on, first part: integer part and at most one fraction
+    (`if ch != '.' && sc.Peek() == '.'`: a numeral that starts with the dot has had its fraction already). -/
+def scanNumberFrac (ch : Int) (buf : Buf) (s : Sc) : Buf × Sc :=
+  if ch ≠ 46 ∧ peek (scanDecimal ch buf s).2 = 46 then
+    scanDecimal (next (scanDecimal ch buf s).2).1 (scanDecimal ch buf s).1 (next (scanDecimal ch buf s).2).2
+  else scanDecimal ch buf s
 
-theorem scanNumberTail_le (ch : Int) (buf : Buf) (s : Sc) :
-    (scanNumberTail ch buf s).2.rest.length ≤ s.rest.length := by
-  unfold scanNumberTail scanDecimal
-  simp only []
+theorem scanNumberFrac_le (ch : Int) (buf : Buf) (s : Sc) :
+    (scanNumberFrac ch buf s).2.rest.length ≤ s.rest.length := by
+  unfold scanNumberFrac scanDecimal
   have h1 := decimalLoop_le (writeChar buf ch) s
-  generalize decimalLoop (writeChar buf ch) s = d at *
-  have h2 : (if peek d.2 = 46 then decimalLoop (writeChar d.1 (next d.2).1) (next d.2).2 else d).2.rest.length
-      ≤ d.2.rest.length := by
-    split
-    · have := decimalLoop_le (writeChar d.1 (next d.2).1) (next d.2).2
-      have := next_rest_le d.2; omega
-    · exact Nat.le_refl _
-  generalize (if peek d.2 = 46 then decimalLoop (writeChar d.1 (next d.2).1) (next d.2).2 else d) = f at *
   split
-  · have h3 := next_rest_le f.2
-    generalize next f.2 = e at *
-    have h4 : (if peek e.2 = 45 ∨ peek e.2 = 43 then
-        ((writeChar (writeChar f.1 e.1) (next e.2).1, (next e.2).2) : Buf × Sc)
-        else (writeChar f.1 e.1, e.2)).2.rest.length ≤ e.2.rest.length := by
-      split
-      · exact next_rest_le _
-      · exact Nat.le_refl _
-    generalize (if peek e.2 = 45 ∨ peek e.2 = 43 then
-        ((writeChar (writeChar f.1 e.1) (next e.2).1, (next e.2).2) : Buf × Sc)
-        else (writeChar f.1 e.1, e.2)) = g at *
-    have h5 := decimalLoop_le (writeChar g.1 (next g.2).1) (next g.2).2
-    have h6 := next_rest_le g.2
+  · have := decimalLoop_le (writeChar (decimalLoop (writeChar buf ch) s).1 (next (decimalLoop (writeChar buf ch) s).2).1)
+      (next (decimalLoop (writeChar buf ch) s).2).2
+    have := next_rest_le (decimalLoop (writeChar buf ch) s).2
     omega
-  · omega
+  · exact h1
+
+/-- the exponent marker and the optional sign (called when `Peek` is `e` or `E`). -/
+def scanNumberExpPre (f : Buf × Sc) : Buf × Sc :=
+  if peek (next f.2).2 = 45 ∨ peek (next f.2).2 = 43 then
+    (writeChar (writeChar f.1 (next f.2).1) (next (next f.2).2).1, (next (next f.2).2).2)
+  else (writeChar f.1 (next f.2).1, (next f.2).2)
+
+theorem scanNumberExpPre_le (f : Buf × Sc) : (scanNumberExpPre f).2.rest.length ≤ f.2.rest.length := by
+  unfold scanNumberExpPre
+  have h1 := next_rest_le f.2
+  have h2 := next_rest_le (next f.2).2
+  split <;> (simp only []; omega)
+
+/-- `scanNumber` from `sc.scanDecimal(ch, buf)` on: integer part, optional fraction, optional exponent; an exponent
+    marker (and sign) not followed by a decimal digit is the error "malformed number". -/
+def scanNumberTail (ch : Int) (buf : Buf) (s : Sc) : Except LexErr (Buf × Sc) :=
+  if peek (scanNumberFrac ch buf s).2 = 101 ∨ peek (scanNumberFrac ch buf s).2 = 69 then
+    if isDecimal (peek (scanNumberExpPre (scanNumberFrac ch buf s)).2) then
+      .ok (scanDecimal (next (scanNumberExpPre (scanNumberFrac ch buf s)).2).1
+            (scanNumberExpPre (scanNumberFrac ch buf s)).1 (next (scanNumberExpPre (scanNumberFrac ch buf s)).2).2)
+    else .error (mkErr (scanNumberExpPre (scanNumberFrac ch buf s)).2 (scanNumberExpPre (scanNumberFrac ch buf s)).1
+                  "malformed number")
+  else .ok (scanNumberFrac ch buf s)
+
+theorem scanNumberTail_le (ch : Int) (buf : Buf) (s : Sc) (b : Buf) (s' : Sc)
+    (h : scanNumberTail ch buf s = .ok (b, s')) : s'.rest.length ≤ s.rest.length := by
+  unfold scanNumberTail at h
+  have h1 := scanNumberFrac_le ch buf s
+  have h2 := scanNumberExpPre_le (scanNumberFrac ch buf s)
+  split at h
+  · split at h
+    · simp only [Except.ok.injEq] at h
+      have h3 := decimalLoop_le (writeChar (scanNumberExpPre (scanNumberFrac ch buf s)).1
+        (next (scanNumberExpPre (scanNumberFrac ch buf s)).2).1) (next (scanNumberExpPre (scanNumberFrac ch buf s)).2).2
+      have h4 := next_rest_le (scanNumberExpPre (scanNumberFrac ch buf s)).2
+      unfold scanDecimal at h
+      rw [h] at h3; simp only [] at h3; omega
+    · simp at h
+  · simp only [Except.ok.injEq] at h
+    rw [h] at h1; exact h1
 
 /-- `scanNumber(ch, buf)` -/
 def scanNumber (ch : Int) (buf : Buf) (s : Sc) : Except LexErr (Buf × Sc) :=
-  if ch = 48 then
-    if peek s = 120 ∨ peek s = 88 then
-      let b1 := writeChar buf ch
-      let n := next s
-      let h := hexLoop (writeChar b1 n.1) n.2 false
-      if !h.2.2 then .error (mkErr h.2.1 h.1 "illegal hexadecimal number") else .ok (h.1, h.2.1)
-    else if peek s ≠ 46 ∧ isDecimal (peek s) then
-      -- the leading zero is dropped: `ch = sc.Next()`
-      .ok (scanNumberTail (next s).1 buf (next s).2)
-    else .ok (scanNumberTail ch buf s)
-  else .ok (scanNumberTail ch buf s)
+  if ch = 48 ∧ (peek s = 120 ∨ peek s = 88) then
+    let b1 := writeChar buf ch
+    let n := next s
+    let h := hexLoop (writeChar b1 n.1) n.2 false
+    if !h.2.2 then .error (mkErr h.2.1 h.1 "illegal hexadecimal number") else .ok (h.1, h.2.1)
+  else scanNumberTail ch buf s
 
 theorem scanNumber_le (ch : Int) (buf : Buf) (s : Sc) (b : Buf) (s' : Sc)
     (h : scanNumber ch buf s = .ok (b, s')) : s'.rest.length ≤ s.rest.length := by
   unfold scanNumber at h
   split at h
-  · split at h
-    · simp only [] at h
-      split at h
-      · simp at h
-      · simp only [Except.ok.injEq, Prod.mk.injEq] at h
-        have := hexLoop_le (writeChar (writeChar buf ch) (next s).1) (next s).2 false
-        have := next_rest_le s
-        rw [← h.2]; omega
-    · split at h
-      · simp only [Except.ok.injEq] at h
-        have h1 := scanNumberTail_le (next s).1 buf (next s).2
-        have h2 := next_rest_le s
-        rw [h] at h1; simp only [] at h1; omega
-      · simp only [Except.ok.injEq] at h
-        have h1 := scanNumberTail_le ch buf s
-        rw [h] at h1; exact h1
-  · simp only [Except.ok.injEq] at h
-    have h1 := scanNumberTail_le ch buf s
-    rw [h] at h1; exact h1
+  · simp only [] at h
+    split at h
+    · simp at h
+    · simp only [Except.ok.injEq, Prod.mk.injEq] at h
+      have := hexLoop_le (writeChar (writeChar buf ch) (next s).1) (next s).2 false
+      have := next_rest_le s
+      rw [← h.2]; omega
+  · exact scanNumberTail_le _ _ _ _ _ h
 
 /-- up to two further decimal digits of a `\ddd` escape:
     `for i := 0; i < 2 && isDecimal(sc.Peek()); i++ { bytes = append(bytes, byte(sc.Next())) }` -/
@@ -488,9 +485,11 @@ theorem escDigits_le (i : Nat) (val : Nat) (s : Sc) : (escDigits i val s).2.rest
       have := next_rest_le s; omega
     · exact Nat.le_refl _
 
-/-- `scanEscape` (the backslash has been read).  `Next` never returns '\r', so the Go `case '\r'` is dead code;
-    a CR (with or without LF) after the backslash arrives here as '\n'. -/
-def scanEscape (buf : Buf) (s : Sc) : Buf × Sc :=
+/-- `scanEscape` without its error exit (the backslash has been read): what is appended and how far the scanner
+    advances.  `Next` never returns '\r', so the Go `case '\r'` is dead code; a CR (with or without LF) after the
+    backslash arrives here as '\n'.  For `\ddd` the value is written with `writeChar` (a byte); values above 255 never
+    get here, see `scanEscape`. -/
+def scanEscapeCore (buf : Buf) (s : Sc) : Buf × Sc :=
   let n := next s
   let ch := n.1
   if ch = 97 then (buf ++ [7], n.2)          -- \a
@@ -510,27 +509,52 @@ def scanEscape (buf : Buf) (s : Sc) : Buf × Sc :=
     (writeChar buf (d.1 : Int), d.2)
   else (writeChar buf ch, n.2)
 
-theorem scanEscape_le (buf : Buf) (s : Sc) : (scanEscape buf s).2.rest.length ≤ s.rest.length := by
+theorem scanEscapeCore_le (buf : Buf) (s : Sc) : (scanEscapeCore buf s).2.rest.length ≤ s.rest.length := by
   have h := next_rest_le s
   have hd := escDigits_le 2 ((next s).1 - 48).toNat (next s).2
-  unfold scanEscape
+  unfold scanEscapeCore
   simp only []
   repeat' (apply ite_prop (P := fun r : Buf × Sc => r.2.rest.length ≤ s.rest.length) <;> intro _)
   all_goals (simp only []; omega)
 
+/-- the value of a `\ddd` escape exceeds 255 (`if val > 255 { return sc.Error(buf.String(), "escape sequence too large") }`).
+    The decimal branch of the Go switch is reached exactly when the character after the backslash is a digit. -/
+def escTooLarge (s : Sc) : Bool :=
+  48 ≤ (next s).1 && (next s).1 ≤ 57 && decide ((escDigits 2 ((next s).1 - 48).toNat (next s).2).1 > 255)
+
+/-- `scanEscape`: the error position is the one reached after the digits, the error token is the buffer before the
+    escape. -/
+def scanEscape (buf : Buf) (s : Sc) : Except LexErr (Buf × Sc) :=
+  if escTooLarge s then
+    .error (mkErr (escDigits 2 ((next s).1 - 48).toNat (next s).2).2 buf "escape sequence too large")
+  else .ok (scanEscapeCore buf s)
+
+theorem scanEscape_ok (buf : Buf) (s : Sc) (r : Buf × Sc) (h : scanEscape buf s = .ok r) :
+    r = scanEscapeCore buf s := by
+  unfold scanEscape at h
+  split at h
+  · simp at h
+  · simp only [Except.ok.injEq] at h; exact h.symm
+
+theorem scanEscape_le (buf : Buf) (s : Sc) (r : Buf × Sc) (h : scanEscape buf s = .ok r) :
+    r.2.rest.length ≤ s.rest.length := by
+  rw [scanEscape_ok buf s r h]; exact scanEscapeCore_le buf s
+
 /-- the loop of `scanString`:
-    `for ch != quote { if newline/EOF → error; if ch == '\\' scanEscape else writeChar; ch = sc.Next() }` -/
+    `for ch != quote { if newline/EOF → error; if ch == '\\' scanEscape (may fail) else writeChar; ch = sc.Next() }` -/
 def stringLoop (quote : Int) (ch : Int) (buf : Buf) (s : Sc) : Except LexErr (Buf × Sc) :=
   if ch = quote then .ok (buf, s)
   else if ch = 10 ∨ ch = 13 ∨ ch < 0 then .error (mkErr s buf "unterminated string")
   else if ch = 92 then
-    stringLoop quote (next (scanEscape buf s).2).1 (scanEscape buf s).1 (next (scanEscape buf s).2).2
+    match _hE : scanEscape buf s with
+    | .error e => .error e
+    | .ok r => stringLoop quote (next r.2).1 r.1 (next r.2).2
   else stringLoop quote (next s).1 (writeChar buf ch) (next s).2
 termination_by m ch s
 decreasing_by
   · rename_i _ h2 _
-    have := scanEscape_le buf s
-    have := next_m (scanEscape buf s).2
+    have := scanEscape_le buf s r _hE
+    have := next_m r.2
     have hm : m ch s = s.rest.length + 1 := by
       unfold m; have : ¬ (ch < 0) := by omega
       simp [this]
@@ -550,10 +574,11 @@ theorem stringLoop_le (quote ch : Int) (buf : Buf) (s : Sc) (b : Buf) (s' : Sc)
   fun_induction stringLoop quote ch buf s
   · simp only [Except.ok.injEq, Prod.mk.injEq] at h; rw [← h.2]; exact Nat.le_refl _
   · simp at h
-  · rename_i buf s _ _ ih
+  · simp at h
+  · rename_i buf s r hE _ _ ih
     have := ih h
-    have := scanEscape_le buf s
-    have := next_rest_le (scanEscape buf s).2
+    have := scanEscape_le buf s r hE
+    have := next_rest_le r.2
     omega
   · rename_i ch buf s _ _ _ ih
     have := ih h
